@@ -32,7 +32,7 @@ def run(ctx):
     monitors.attach(ctx, dtw, "distance_fast", dtwmon.c02_post(ctx, dtw, "dtw.distance_fast", False, False, label="C11"))
     monitors.attach(ctx, dtw_cc, "distance_ndim", dtwmon.c02_post(ctx, dtw, "dtw_cc.distance_ndim", True, True, label="C11"))
     mods = (dtw, dtw_ndim, dtw_cc)
-    N = 260 if ctx.quick else 6000
+    N = ctx.scale(2500, 30000)
     for _ in range(N):
         r, c = rng.randint(1, 9), rng.randint(1, 9)
         if rng.random() < 0.3:
@@ -88,7 +88,7 @@ def run(ctx):
             if not dtwmon.engines_agree(ub_n, ub_1):
                 ctx.violation("d1-reduction", what="ub_euclidean", ndim_result=ub_n, univariate_result=ub_1)
     # distance matrices over containers
-    M = 40 if ctx.quick else 900
+    M = ctx.scale(400, 4000)
     for _ in range(M):
         k = rng.randint(2, 5)
         nd = rng.randint(1, 4)
